@@ -15,18 +15,18 @@ import (
 )
 
 type Verifier struct {
-	P         *Program
-	specs     *Specs
-	contracts map[string]*Contract
-	guards    map[string]*Guard
-	noInline  map[string]bool
-	funcIDs   map[*ssa.Function]int
-	inlineSeq int
-	modCache  map[*ssa.Function]map[string]bool
-	recCache  map[*ssa.Function]bool
-	addrTaken map[*ssa.Function]bool
-	impls     map[string][]*ssa.Function // iface method key -> implementations
-	astCache  map[*token.File]*ast.File
+	P          *Program
+	specs      *Specs
+	contracts  map[string]*Contract
+	guards     map[string]*Guard
+	noInline   map[string]bool
+	funcIDs    map[*ssa.Function]int
+	inlineSeq  int
+	modCache   map[*ssa.Function]map[string]bool
+	recCache   map[*ssa.Function]bool
+	addrTaken  map[*ssa.Function]bool
+	impls      map[string][]*ssa.Function // iface method key -> implementations
+	astCache   map[*token.File]*ast.File
 	lockExempt func(ex *Exec, f *frame, st *State) Term
 	// per-exec scratch (reset by newExec)
 	compSorts  map[string]string
